@@ -1,4 +1,9 @@
 import CedarVerif.Lemmas.TypecheckSound
+import CedarVerif.Lemmas.TypecheckSound2
+import CedarVerif.Lemmas.TypecheckPolicy
+import CedarVerif.Lemmas.TypecheckSIP
+import CedarVerif.Lemmas.TypecheckSIP2
+import CedarVerif.Thm.C11
 /-
 C03 — strict validation is sound (and not vacuous).
 
@@ -6,19 +11,45 @@ Model: `Cedar.typeOf` (Cedar/Validation/Typecheck.lean), the mirror of `SingleEn
 permissive mode, tied to the Rust typechecker by the differential run of `./check C03` (per policy and request
 environment, both modes, plus the impossible-policy flag).
 
-FULL STATEMENT: `typeOf_sound` below (a `def … : Prop`, all expressions).
-PROVED: `typeOf_sound_partial` — the same statement for the expressions of `Cedar.InFragment`
-(Lemmas/TypecheckDefs.lean), for BOTH modes:
-    literals (incl. entity uids), `principal` `action` `resource` `context`, `&&`, `||`, `!`, `if` (at least one branch
-    syntactically of boolean / long / string kind, so that the least upper bound is one of the branch types or Bool),
-    unary `-`, `+ - *`, `==` (incl. the `False` typing of disjoint entity types and the singleton typing of literal
-    operands), `like`, `is`, `has` and `.` on records and on entities (required / optional attributes, capabilities from
-    `has`, entities absent from the store: `has` on an entity is typed Bool — not True — unless guarded).
-NOT in the proved fragment (covered by the differential run against Rust and by the implementation-level soundness
-search of harness/src/c03.rs only): `< <=`, `in`, `isEmpty`, `contains*`, `hasTag`/`getTag`, set / record literals,
-extension calls, template slots, unknowns; `if` whose two branches are both of set / record / entity kind.
-`strict_implies_permissive` is NOT proved: both modes are modelled and compared with Rust,
-and the implication is checked on the implementation for every generated policy.
+FULL STATEMENT: `typeOf_sound` below (a `def … : Prop`, all expressions, both modes).
+
+PROVED (0): `typeOf_sound_strict` — THE FULL STATEMENT WITH `m := .strict`, for every expression all of whose slots have a
+type in the environment (`SlotsLinked`); it is (1) plus `inFragment2_of` (distinct record keys + linked slots ⇒ fragment).
+PROVED (1): `typeOf_sound_partial2` — the statement for STRICT mode and every expression of `Cedar.C03.InFragment2 env`
+(= `InFragmentM .strict env`, Lemmas/TypecheckDefs2.lean), i.e. ALL constructs:
+    literals (incl. entity uids), `principal` `action` `resource` `context`, template slots (in an environment linked for
+    that slot), `&&`, `||`, `!`, `if` WITH ARBITRARY BRANCHES (every instance of either branch type is an instance of the
+    least upper bound: `lub_inst_l`, `lub_inst_r`), unary `-`, `+ - *`, `==`, `<` `<=` (longs and the datetime / duration
+    overloads), `like`, `is`, `has` and `.` on records and entities (required / optional attributes, capabilities, absent
+    entities), `hasTag` / `getTag` (capabilities as for optional attributes), set literals, `contains` `containsAll`
+    `containsAny` `isEmpty`, record literals (distinct keys — Rust's `ExprKind::Record` is a map), `in` (entity in entity,
+    entity in set of entities; the `False` typing of entity types not related by `descendants`; the action-literal special
+    cases typed `True` / `False` from the action hierarchy), extension function calls (constructors and methods: a value of
+    the result type or an `ext` error); `unknown` vacuously (the model does not type it).
+  Additional premises w.r.t. the first fragment: `SchemaWF2` (the entity-type table is a map, action uids have an action
+  type, `ancestors` / `descendants` of the action hierarchy are inverse — all true of every schema Rust constructs) and
+  `ActionsPresent` (the store holds the schema's action entities — `Entities::from_entities(.., schema)` adds them; without
+  it `action in Action::"group"`, typed `True`, evaluates to `false` on a store that lacks the action entity).
+  Policy level: `strict_validation_sound` (templates) and `strict_validation_sound_static` — acceptance by `checkPolicy`
+  in all environments ⇒ boolean or permitted error on every conformant request (its environment is among those checked).
+PROVED (2): `typeOf_sound_partialM` — the statement for BOTH modes on `InFragmentM m env`; for PERMISSIVE mode this is every
+    construct as in (1), except that an `if` (typechecked in both branches) has a syntactically flat branch (boolean / long /
+    string kind) and a set literal is non-empty with syntactically flat elements.
+    (`typeOf_sound_partial`, the first fragment `Cedar.InFragment` for both modes, is kept; it needs `SchemaWF` only.)
+NOT proved: PERMISSIVE typing of an `if` / set literal that joins record, set or entity types, and of the empty set literal —
+there the static types contain entity-type unions (`lub` of `User` and `Group`) and `Set<Never>`, which the invariant
+`CedarType.mono` of the proofs excludes; a slot in an environment that has no type for it (Rust types it `AnyEntity`; such a
+slot does not occur: `link_request_env` gives every slot of the policy a type; see `SlotsBound` in the full statement);
+record literals with duplicate keys (not representable in Rust).  These are covered by the differential run against Rust
+and by the implementation-level soundness search of harness/src/c03.rs only.
+`strict_implies_permissive` (full statement: a `def … : Prop`) is PROVED as `strict_implies_permissive_strict` — with the
+SAME type and capabilities in both modes — for every expression of the strict fragment `InFragment2` (every construct), under
+`SchemaWF3` (the record types the schema declares are closed with distinct keys; the action table is a map), and at policy
+level as `strict_accepted_policy_permissive_accepted` (`checkPolicy` strict accepted ⇒ `checkPolicy` permissive gives the
+same verdicts).  Without `SchemaWF3`, `strict_implies_permissive_partial` covers the expressions whose least upper bounds
+have a flat side (`SIPFragment`).  NOT proved: schemas with open or duplicate-key record types (partial-schema
+validation).  Both modes are modelled and compared with Rust, and the implication is checked on the implementation for
+every generated policy.
 
 The invariant has the two clauses the Rust rules need (DESIGN.md App. E): a capability *holds* if its guard
 (`e has a`, `e.hasTag(k)`) is true OR fails with a permitted error; and the output capabilities of an expression typed
@@ -27,22 +58,148 @@ The invariant has the two clauses the Rust rules need (DESIGN.md App. E): a capa
 namespace Cedar.C03
 open Cedar
 
-/-- template slots are bound to uids of the slot types of the environment -/
-def SlotsMatch (env : RequestEnv) (sl : SlotEnv) : Prop :=
-  (∀ t, env.principalSlot = some t → ∃ u, sl.lookup .principal = some u ∧ u.ty = t) ∧
-  (∀ t, env.resourceSlot = some t → ∃ u, sl.lookup .resource = some u ∧ u.ty = t)
+/-- template slots are bound (the policy is linked), to uids of the slot types of the environment where it has any -/
+def SlotsBound (env : RequestEnv) (sl : SlotEnv) : Prop :=
+  (∃ u, sl.lookup .principal = some u ∧ ∀ t, env.principalSlot = some t → u.ty = t) ∧
+  (∃ u, sl.lookup .resource = some u ∧ ∀ t, env.resourceSlot = some t → u.ty = t)
 
-/-- FULL STATEMENT (every expression the model types).  If `typeOf e caps = ok (τ, caps')` in the environment of a
-request that — like the store — conforms to the schema (Conformance.lean), and `caps` hold, then `e` evaluates to a
-value of type `τ` or fails with an entity / overflow / extension error only — never a type error, a missing attribute
-or tag, or an unknown function; if the value is `true` then `caps'` hold; and if `τ = True` then `caps'` hold
-unconditionally. -/
+theorem SlotsBound.slotsMatch {env : RequestEnv} {sl : SlotEnv} (h : SlotsBound env sl) : SlotsMatch env sl := by
+  obtain ⟨⟨u, hu, hut⟩, ⟨v, hv, hvt⟩⟩ := h
+  exact ⟨fun t ht => ⟨u, hu, hut t ht⟩, fun t ht => ⟨v, hv, hvt t ht⟩⟩
+
+/-- FULL STATEMENT (every expression the model types, both modes).  If `typeOf e caps = ok (τ, caps')` in the environment
+of a request that — like the store — conforms to the schema (Conformance.lean), the store holds the schema's action
+entities, the slots are bound, and `caps` hold, then `e` evaluates to a value of type `τ` or fails with an
+entity / overflow / extension error only — never a type error, a missing attribute or tag; if the value is `true` then
+`caps'` hold; and if `τ = True` then `caps'` hold unconditionally.
+(Premises `SchemaWF2`, `ActionsPresent`, `SlotsBound`, `RecordKeysDistinct` were added while proving `in`, slots and record
+literals: without them the statement is false — see the header.) -/
 def typeOf_sound : Prop :=
   ∀ (m : ValidationMode) (s : Schema) (env : RequestEnv) (w : World),
-    SchemaWF s → EnvMatches s env w.q → ConformsRequest s w.q → StoreConforms s w.es → SlotsMatch env w.sl →
-    ∀ (e : Expr) (caps : Capabilities) (τ : CedarType) (c' : Capabilities),
+    SchemaWF2 s → EnvMatches s env w.q → ConformsRequest s w.q → StoreConforms s w.es → ActionsPresent s w.es →
+    SlotsBound env w.sl →
+    ∀ (e : Expr) (caps : Capabilities) (τ : CedarType) (c' : Capabilities), RecordKeysDistinct e = true →
       typeOf m s env e caps = .ok (τ, c') → CapsHold w caps →
       TySound w e τ c' ∧ (τ = .bool .tt → CapsHold w c')
+
+/-- `typeOf_sound` in BOTH modes for the expressions of `InFragmentM m env` (strict: every construct; permissive: every
+construct, but an `if` has a syntactically flat branch and a set literal is non-empty with syntactically flat elements). -/
+theorem typeOf_sound_partialM (m : ValidationMode) (s : Schema) (env : RequestEnv) (w : World)
+    (hWF : SchemaWF2 s) (henv : EnvMatches s env w.q) (hreq : ConformsRequest s w.q) (hst : StoreConforms s w.es)
+    (hact : ActionsPresent s w.es) (hsl : SlotsMatch env w.sl)
+    (e : Expr) (hf : InFragmentM m env e = true) (caps : Capabilities) (τ : CedarType) (c' : Capabilities)
+    (h : typeOf m s env e caps = .ok (τ, c')) (hc : CapsHold w caps) :
+    TySound w e τ c' ∧ (τ = .bool .tt → CapsHold w c') :=
+  (soundM hWF henv e hf caps τ c' h).2 ⟨hreq, hst, hsl, hact⟩ hc
+
+/-- Corollary (both modes): a condition that the typechecker does not reject in the environment of a conformant request
+evaluates to a boolean, or fails with a permitted error. -/
+theorem accepted_boolean_or_permitted_errorM (m : ValidationMode) (s : Schema) (env : RequestEnv) (w : World)
+    (hWF : SchemaWF2 s) (henv : EnvMatches s env w.q) (hreq : ConformsRequest s w.q) (hst : StoreConforms s w.es)
+    (hact : ActionsPresent s w.es) (hsl : SlotsMatch env w.sl)
+    (e : Expr) (hf : InFragmentM m env e = true) (v : Verdict) (hv : checkEnv m s env e = some v) (hne : v ≠ .fail) :
+    (∃ b, w.eval e = .ok (.prim (.bool b))) ∨ (∃ err, w.eval e = .error err ∧ Permitted err) := by
+  unfold checkEnv at hv
+  cases hE : expectOneOf (typeOf m s env e []) [boolT] with
+  | error err =>
+    rw [hE] at hv
+    cases err <;> simp at hv
+    exact (hne hv.symm).elim
+  | ok p =>
+    obtain ⟨τ, c'⟩ := p
+    obtain ⟨ht, hs⟩ := expectOneOf_ok hE
+    have hs' := (typeOf_sound_partialM m s env w hWF henv hreq hst hact hsl e hf [] τ c' ht (capsHold_nil w)).1
+    rcases hs'.bool_cases (subtype_bool hs) with he | ⟨b, hb, _, _⟩
+    · exact Or.inr he
+    · exact Or.inl ⟨b, hb⟩
+
+/-- `typeOf_sound` in STRICT mode for the expressions of `InFragment2 env`: every construct except `unknown`
+(slots: in environments linked for them; record literals: distinct keys). -/
+theorem typeOf_sound_partial2 (s : Schema) (env : RequestEnv) (w : World)
+    (hWF : SchemaWF2 s) (henv : EnvMatches s env w.q) (hreq : ConformsRequest s w.q) (hst : StoreConforms s w.es)
+    (hact : ActionsPresent s w.es) (hsl : SlotsMatch env w.sl)
+    (e : Expr) (hf : InFragment2 env e = true) (caps : Capabilities) (τ : CedarType) (c' : Capabilities)
+    (h : typeOf .strict s env e caps = .ok (τ, c')) (hc : CapsHold w caps) :
+    TySound w e τ c' ∧ (τ = .bool .tt → CapsHold w c') :=
+  (sound2 hWF henv e hf caps τ c' h).2 ⟨hreq, hst, hsl, hact⟩ hc
+
+/-- THE FULL STATEMENT IN STRICT MODE: `typeOf_sound` with `m := .strict`, for every expression all of whose slots have a
+type in the environment (`SlotsLinked`; `link_request_env` guarantees it for the environments the typechecker builds). -/
+theorem typeOf_sound_strict (s : Schema) (env : RequestEnv) (w : World)
+    (hWF : SchemaWF2 s) (henv : EnvMatches s env w.q) (hreq : ConformsRequest s w.q) (hst : StoreConforms s w.es)
+    (hact : ActionsPresent s w.es) (hsl : SlotsBound env w.sl)
+    (e : Expr) (caps : Capabilities) (τ : CedarType) (c' : Capabilities) (hk : RecordKeysDistinct e = true)
+    (hlinked : SlotsLinked env e = true)
+    (h : typeOf .strict s env e caps = .ok (τ, c')) (hc : CapsHold w caps) :
+    TySound w e τ c' ∧ (τ = .bool .tt → CapsHold w c') :=
+  typeOf_sound_partial2 s env w hWF henv hreq hst hact hsl.slotsMatch e (inFragment2_of env e hk hlinked) caps τ c' h hc
+
+/-- the static types of the second fragment mention single entity types only, and never `Never` / `AnyEntity` -/
+theorem typeOf_types_wellformed2 (s : Schema) (env : RequestEnv) (q : Request)
+    (hWF : SchemaWF2 s) (henv : EnvMatches s env q) (e : Expr) (hf : InFragment2 env e = true)
+    (caps : Capabilities) (τ : CedarType) (c' : Capabilities) (h : typeOf .strict s env e caps = .ok (τ, c')) : τ.mono = true :=
+  (sound2 (w := ⟨q, [], []⟩) hWF henv e hf caps τ c' h).1
+
+/-- Corollary (second fragment): a policy condition that the strict typechecker does not reject in the environment of a
+conformant request evaluates to a boolean, or fails with a permitted error. -/
+theorem accepted_boolean_or_permitted_error2 (s : Schema) (env : RequestEnv) (w : World)
+    (hWF : SchemaWF2 s) (henv : EnvMatches s env w.q) (hreq : ConformsRequest s w.q) (hst : StoreConforms s w.es)
+    (hact : ActionsPresent s w.es) (hsl : SlotsMatch env w.sl)
+    (e : Expr) (hf : InFragment2 env e = true) (v : Verdict) (hv : checkEnv .strict s env e = some v) (hne : v ≠ .fail) :
+    (∃ b, w.eval e = .ok (.prim (.bool b))) ∨ (∃ err, w.eval e = .error err ∧ Permitted err) := by
+  unfold checkEnv at hv
+  cases hE : expectOneOf (typeOf .strict s env e []) [boolT] with
+  | error err =>
+    rw [hE] at hv
+    cases err <;> simp at hv
+    exact (hne hv.symm).elim
+  | ok p =>
+    obtain ⟨τ, c'⟩ := p
+    obtain ⟨ht, hs⟩ := expectOneOf_ok hE
+    have hs' := (typeOf_sound_partial2 s env w hWF henv hreq hst hact hsl e hf [] τ c' ht (capsHold_nil w)).1
+    rcases hs'.bool_cases (subtype_bool hs) with he | ⟨b, hb, _, _⟩
+    · exact Or.inr he
+    · exact Or.inl ⟨b, hb⟩
+
+/-- Corollary (second fragment): a condition typed `False` in the request's environment is never satisfied. -/
+theorem typed_false_never_satisfied2 (s : Schema) (env : RequestEnv) (w : World)
+    (hWF : SchemaWF2 s) (henv : EnvMatches s env w.q) (hreq : ConformsRequest s w.q) (hst : StoreConforms s w.es)
+    (hact : ActionsPresent s w.es) (hsl : SlotsMatch env w.sl)
+    (e : Expr) (hf : InFragment2 env e = true) (hv : checkEnv .strict s env e = some .ff) :
+    w.eval e ≠ .ok (.prim (.bool true)) := by
+  unfold checkEnv at hv
+  cases hE : expectOneOf (typeOf .strict s env e []) [boolT] with
+  | error err => rw [hE] at hv; cases err <;> simp at hv
+  | ok p =>
+    obtain ⟨τ, c'⟩ := p
+    rw [hE] at hv
+    obtain ⟨ht, hs⟩ := expectOneOf_ok hE
+    have hτ : τ = .bool .ff := by
+      rcases subtype_bool hs with rfl | ⟨bt, rfl⟩
+      · simp at hv
+      · cases bt <;> simp at hv
+        rfl
+    subst hτ
+    have hs' := (typeOf_sound_partial2 s env w hWF henv hreq hst hact hsl e hf [] _ c' ht (capsHold_nil w)).1
+    intro htrue
+    rcases hs' with ⟨err, he, _⟩ | ⟨v, hv', hi, _⟩
+    · rw [htrue] at he; cases he
+    · rw [htrue] at hv'; cases hv'; cases hi
+
+/-- Corollary (second fragment): a policy whose every environment is typed `False` (the impossible-policy rule) is not
+satisfied by any conformant request whose environment is one of them. -/
+theorem impossible_policy_never_satisfied2 (s : Schema) (w : World) (env : RequestEnv)
+    (hWF : SchemaWF2 s) (henv : EnvMatches s env w.q) (hreq : ConformsRequest s w.q) (hst : StoreConforms s w.es)
+    (hact : ActionsPresent s w.es) (hsl : SlotsMatch env w.sl)
+    (e : Expr) (hf : InFragment2 env e = true) (vs : List (RequestEnv × Verdict))
+    (hvs : vs.all (fun p => checkEnv .strict s p.1 e == some p.2) = true) (himp : impossible vs = true)
+    (hmem : ∃ v, (env, v) ∈ vs) : w.eval e ≠ .ok (.prim (.bool true)) := by
+  obtain ⟨v, hm⟩ := hmem
+  have h1 := List.all_eq_true.mp hvs _ hm
+  have h2 := List.all_eq_true.mp himp _ hm
+  simp only [beq_iff_eq] at h1 h2
+  rw [h2] at h1
+  exact typed_false_never_satisfied2 s env w hWF henv hreq hst hact hsl e hf h1
 
 /-- `typeOf_sound` for the expressions of `InFragment` (both validation modes). -/
 theorem typeOf_sound_partial (m : ValidationMode) (s : Schema) (env : RequestEnv) (w : World)
@@ -177,5 +334,332 @@ example : checkEnv .strict exSchema exEnv (.hasAttr context "nope") = some .ff :
 /-- the `||` rule keeps the capabilities of a right operand typed `True` -/
 example : checkEnv .strict exSchema exEnv
     (.and (.or (.hasAttr principal "active") (.hasAttr context "level")) (.lit (.bool true))) = some .tt := by decide +kernel
+
+
+/-- POLICY LEVEL (policies and templates): if the strict typechecker accepts the condition in every request environment
+(`checkPolicy … = some vs`, `accepted vs`), then in every world whose request environment is one of them, evaluation
+yields a boolean or fails with an entity / overflow / extension error only. -/
+theorem strict_validation_sound (s : Schema) (pu ru : SlotUse) (cond : Expr) (vs : List (RequestEnv × Verdict))
+    (w : World) (env : RequestEnv)
+    (hWF : SchemaWF2 s) (hmem : env ∈ s.envs pu ru) (henv : EnvMatches s env w.q) (hreq : ConformsRequest s w.q)
+    (hst : StoreConforms s w.es) (hact : ActionsPresent s w.es) (hsl : SlotsMatch env w.sl)
+    (hf : InFragment2 env cond = true)
+    (hcp : checkPolicy .strict s pu ru cond = some vs) (hacc : accepted vs = true) :
+    (∃ b, w.eval cond = .ok (.prim (.bool b))) ∨ (∃ err, w.eval cond = .error err ∧ Permitted err) := by
+  obtain ⟨v, hv, hvm⟩ := checkPolicy_mem hcp hmem
+  have hne : v ≠ .fail := by
+    have := List.all_eq_true.mp hacc _ hvm
+    simpa using this
+  exact accepted_boolean_or_permitted_error2 s env w hWF henv hreq hst hact hsl cond hf v hv hne
+
+/-- POLICY LEVEL (static policies): a slot-free condition accepted by the strict typechecker evaluates, on EVERY conformant
+request and store, to a boolean or fails with a permitted error — the request's environment is among those typechecked
+(`conformant_request_env`). -/
+theorem strict_validation_sound_static (s : Schema) (cond : Expr) (vs : List (RequestEnv × Verdict)) (w : World)
+    (hWF : SchemaWF2 s) (hreq : ConformsRequest s w.q) (hst : StoreConforms s w.es) (hact : ActionsPresent s w.es)
+    (hf : ∀ env, InFragment2 env cond = true)
+    (hcp : checkPolicy .strict s .absent .absent cond = some vs) (hacc : accepted vs = true) :
+    (∃ b, w.eval cond = .ok (.prim (.bool b))) ∨ (∃ err, w.eval cond = .error err ∧ Permitted err) := by
+  obtain ⟨env, hmem, henv, hp, hr⟩ := conformant_request_env hreq
+  have hsl : SlotsMatch env w.sl := ⟨fun t ht => (by rw [hp] at ht; cases ht), fun t ht => (by rw [hr] at ht; cases ht)⟩
+  exact strict_validation_sound s .absent .absent cond vs w env hWF hmem henv hreq hst hact hsl (hf env) hcp hacc
+
+/-- POLICY LEVEL: a static policy flagged impossible (every environment typed `False`) is satisfied by no conformant request -/
+theorem impossible_policy_never_satisfied_static (s : Schema) (cond : Expr) (vs : List (RequestEnv × Verdict)) (w : World)
+    (hWF : SchemaWF2 s) (hreq : ConformsRequest s w.q) (hst : StoreConforms s w.es) (hact : ActionsPresent s w.es)
+    (hf : ∀ env, InFragment2 env cond = true)
+    (hcp : checkPolicy .strict s .absent .absent cond = some vs) (himp : impossible vs = true) :
+    w.eval cond ≠ .ok (.prim (.bool true)) := by
+  obtain ⟨env, hmem, henv, hp, hr⟩ := conformant_request_env hreq
+  have hsl : SlotsMatch env w.sl := ⟨fun t ht => (by rw [hp] at ht; cases ht), fun t ht => (by rw [hr] at ht; cases ht)⟩
+  obtain ⟨v, hv, hvm⟩ := checkPolicy_mem hcp hmem
+  have hff : v = .ff := by
+    have := List.all_eq_true.mp himp _ hvm
+    simpa using this
+  subst hff
+  exact typed_false_never_satisfied2 s env w hWF henv hreq hst hact hsl cond (hf env) hv
+
+/-! ### strict acceptance implies permissive acceptance -/
+
+/-- FULL STATEMENT: whatever the strict typechecker accepts, the permissive one accepts, with a supertype -/
+def strict_implies_permissive : Prop :=
+  ∀ (s : Schema) (env : RequestEnv) (e : Expr) (caps : Capabilities) (τ : CedarType) (c : Capabilities),
+    typeOf .strict s env e caps = .ok (τ, c) →
+    ∃ τ' c', typeOf .permissive s env e caps = .ok (τ', c') ∧ isSubtype .permissive τ τ' = true
+
+/-- `strict_implies_permissive` — with the SAME type and capabilities — for the expressions of `InFragment2` that are in
+`SIPFragment` (Lemmas/TypecheckSIP.lean): every construct, but an `if` that is typechecked in both branches has a
+syntactically flat branch (boolean / long / string kind) and the elements of a set literal are syntactically flat, so
+that every least upper bound has a flat side, where the two modes agree (`lub_flat_modes`).  NOT proved: `if` / set
+literals joining record, set or entity types (the strict and permissive `lub` of such types would have to be related). -/
+theorem strict_implies_permissive_partial (s : Schema) (env : RequestEnv) (q : Request)
+    (hWF : SchemaWF2 s) (henv : EnvMatches s env q) (e : Expr) (hf : InFragment2 env e = true) (hs : SIPFragment e = true)
+    (caps : Capabilities) (τ : CedarType) (c : Capabilities) (h : typeOf .strict s env e caps = .ok (τ, c)) :
+    typeOf .permissive s env e caps = .ok (τ, c) :=
+  sip hWF henv e hf hs caps _ h
+
+/-- `strict_implies_permissive` — with the SAME type and capabilities — for EVERY expression of the strict fragment
+`InFragment2` (every construct; distinct record keys; linked slots), given that the record types the schema declares are
+closed with distinct keys (`SchemaWF3`): the types strict typing assigns are then "good" (`GoodTy`: single entity types,
+closed records with distinct keys), and on good types the permissive least upper bound is the strict one whenever the
+latter exists (`lub_strict_perm`: where permissive but not strict subtyping holds — a required attribute against an
+optional one — the strict bound does not exist, `subtype_gap`). -/
+theorem strict_implies_permissive_strict (s : Schema) (env : RequestEnv) (q : Request)
+    (hWF : SchemaWF3 s) (henv : EnvMatches s env q) (e : Expr) (hf : InFragment2 env e = true)
+    (caps : Capabilities) (τ : CedarType) (c : Capabilities) (h : typeOf .strict s env e caps = .ok (τ, c)) :
+    typeOf .permissive s env e caps = .ok (τ, c) :=
+  sipG hWF henv e hf caps _ h
+
+/-- the instance of the full statement `strict_implies_permissive` that this gives -/
+theorem strict_implies_permissive_strict_sub (s : Schema) (env : RequestEnv) (q : Request)
+    (hWF : SchemaWF3 s) (henv : EnvMatches s env q) (e : Expr) (hf : InFragment2 env e = true)
+    (caps : Capabilities) (τ : CedarType) (c : Capabilities) (h : typeOf .strict s env e caps = .ok (τ, c)) :
+    ∃ τ' c', typeOf .permissive s env e caps = .ok (τ', c') ∧ isSubtype .permissive τ τ' = true := by
+  have hm := (sound2 (w := ⟨q, [], []⟩) hWF.toSchemaWF2 henv e hf caps τ c h).1
+  have hc := typeOf_cn hWF henv e hf caps τ c h
+  exact ⟨τ, c, strict_implies_permissive_strict s env q hWF henv e hf caps τ c h,
+    isSubtype_strict_perm' (isSubtype_refl_good τ ⟨hm, hc⟩)⟩
+
+/-- POLICY LEVEL: a policy or template that the strict typechecker accepts in every environment is accepted by the
+permissive typechecker in every environment, with the same verdicts -/
+theorem strict_accepted_policy_permissive_accepted (s : Schema) (pu ru : SlotUse) (cond : Expr)
+    (vs : List (RequestEnv × Verdict)) (hWF : SchemaWF3 s) (hf : ∀ env, env ∈ s.envs pu ru → InFragment2 env cond = true)
+    (hcp : checkPolicy .strict s pu ru cond = some vs) (hacc : accepted vs = true) :
+    checkPolicy .permissive s pu ru cond = some vs := by
+  unfold checkPolicy at hcp ⊢
+  refine option_mapM_congr hcp (fun env henv y hy hmem => ?_)
+  obtain ⟨q, hq⟩ := env_of_envs hWF henv
+  cases hc : checkEnv .strict s env cond with
+  | none => rw [hc] at hy; cases hy
+  | some v =>
+    rw [hc] at hy
+    simp only [Option.map_some, Option.some.injEq] at hy
+    subst hy
+    have hne : v ≠ .fail := by
+      have := List.all_eq_true.mp hacc _ hmem
+      simpa using this
+    -- same verdict in permissive mode
+    have hp : checkEnv .permissive s env cond = some v := by
+      unfold checkEnv at hc ⊢
+      cases hE : expectOneOf (typeOf .strict s env cond []) [boolT] with
+      | error err =>
+        rw [hE] at hc
+        cases err <;> simp at hc
+        exact (hne hc.symm).elim
+      | ok p =>
+        rw [hE] at hc
+        rw [(sipG hWF hq cond (hf env henv) []).expect _ _ hE]
+        exact hc
+    rw [hp]; rfl
+
+/-- Corollary: a verdict other than `fail` of the strict typechecker in an environment is the permissive verdict too -/
+theorem strict_accepted_implies_permissive_accepted (s : Schema) (env : RequestEnv) (q : Request)
+    (hWF : SchemaWF2 s) (henv : EnvMatches s env q) (e : Expr) (hf : InFragment2 env e = true) (hs : SIPFragment e = true)
+    (v : Verdict) (hv : checkEnv .strict s env e = some v) (hne : v ≠ .fail) : checkEnv .permissive s env e = some v := by
+  unfold checkEnv at hv ⊢
+  cases hE : expectOneOf (typeOf .strict s env e []) [boolT] with
+  | error err =>
+    rw [hE] at hv
+    cases err <;> simp at hv
+    exact (hne hv.symm).elim
+  | ok p =>
+    rw [hE] at hv
+    rw [(sip hWF henv e hf hs []).expect _ _ hE]
+    exact hv
+
+/-! ### non-vacuity of the second fragment: ALL hypotheses of `typeOf_sound_partial2` instantiated
+
+`entity Group; entity User in [Group] { age?: Long, name: String } tags String;
+ action read; action view in [read] appliesTo { principal: User, resource: Group, context: { level: Long } };` -/
+
+def ex2User : EntityTypeEntry :=
+  { attrs := [("age", false, .long), ("name", true, .string)], isOpen := false, tags := some .string, descendants := [], enumIds := none }
+def ex2Group : EntityTypeEntry :=
+  { attrs := [], isOpen := false, tags := none, descendants := ["User"], enumIds := none }
+def ex2Read : ActionEntry :=
+  { principals := [], resources := [], context := .record [] false, descendants := [⟨"Action", "view"⟩], ancestors := [], attrs := [] }
+def ex2View : ActionEntry :=
+  { principals := ["User"], resources := ["Group"], context := .record [("level", true, .long)] false,
+    descendants := [], ancestors := [⟨"Action", "read"⟩], attrs := [] }
+def ex2Schema : Schema :=
+  { ets := [("Group", ex2Group), ("User", ex2User)], acts := [(⟨"Action", "read"⟩, ex2Read), (⟨"Action", "view"⟩, ex2View)] }
+/-- the environment of `view`, linked for `?principal` -/
+def ex2Env : RequestEnv :=
+  { principal := "User", action := ⟨"Action", "view"⟩, resource := "Group", context := ex2View.context,
+    principalSlot := some "User", resourceSlot := none }
+def ex2World : World :=
+  { q := { principal := ⟨"User", "alice"⟩, action := ⟨"Action", "view"⟩, resource := ⟨"Group", "admins"⟩,
+           context := [("level", .prim (.int 3))] },
+    es := [(⟨"User", "alice"⟩, { attrs := [("name", .prim (.string "Alice"))], ancestors := [⟨"Group", "admins"⟩],
+                                 tags := [("team", .prim (.string "blue"))] }),
+           (⟨"Group", "admins"⟩, { attrs := [], ancestors := [], tags := [] }),
+           (⟨"Action", "read"⟩, { attrs := [], ancestors := [], tags := [] }),
+           (⟨"Action", "view"⟩, { attrs := [], ancestors := [⟨"Action", "read"⟩], tags := [] })],
+    sl := [(.principal, ⟨"User", "alice"⟩)] }
+
+def ex2Team : Expr := .lit (.string "team")
+/-- `principal in resource && action in Action::"read" && ?principal == principal
+    && principal.hasTag("team") && principal.getTag("team") like "b*"
+    && context.level < 5 && [1, 2, 3].contains(context.level) && !([resource].isEmpty())
+    && (if principal has age then principal.age else 0) <= 3 && {a: 1, b: "x"}.a == 1
+    && decimal("1.5").lessThan(decimal("2.0")) && !(resource in principal)` -/
+def ex2Cond : Expr :=
+  .and (.binaryApp .mem principal (.var .resource))
+  (.and (.binaryApp .mem (.var .action) (.lit (.entityUID ⟨"Action", "read"⟩)))
+  (.and (.binaryApp .eq (.slot .principal) principal)
+  (.and (.binaryApp .hasTag principal ex2Team)
+  (.and (.like (.binaryApp .getTag principal ex2Team) [.char 'b', .star])
+  (.and (.binaryApp .less (.getAttr context "level") (.lit (.int 5)))
+  (.and (.binaryApp .contains (.set [.lit (.int 1), .lit (.int 2), .lit (.int 3)]) (.getAttr context "level"))
+  (.and (.unaryApp .not (.unaryApp .isEmpty (.set [.var .resource])))
+  (.and (.binaryApp .lessEq (.ite (.hasAttr principal "age") (.getAttr principal "age") (.lit (.int 0))) (.lit (.int 3)))
+  (.and (.binaryApp .eq (.getAttr (.record [("a", .lit (.int 1)), ("b", .lit (.string "x"))]) "a") (.lit (.int 1)))
+  (.and (.call "lessThan" [.call "decimal" [.lit (.string "1.5")], .call "decimal" [.lit (.string "2.0")]])
+        (.unaryApp .not (.binaryApp .mem (.var .resource) principal))))))))))))
+
+theorem ex2_schemaWF : SchemaWF2 ex2Schema where
+  et_mono := by
+    intro T et h
+    have hm := entityType?_mem' h
+    simp only [ex2Schema, List.mem_cons, Prod.mk.injEq, List.not_mem_nil, or_false] at hm
+    rcases hm with ⟨rfl, rfl⟩ | ⟨rfl, rfl⟩
+    · exact ⟨rfl, fun t ht => by simp [ex2Group] at ht⟩
+    · exact ⟨rfl, fun t ht => by simp [ex2User] at ht; subst ht; rfl⟩
+  act_wf := by
+    intro u a h
+    have hm := action?_mem h
+    simp only [ex2Schema, List.mem_cons, Prod.mk.injEq, List.not_mem_nil, or_false] at hm
+    rcases hm with ⟨rfl, rfl⟩ | ⟨rfl, rfl⟩ <;> exact ⟨rfl, rfl⟩
+  no_action_etype := by
+    intro T hT
+    cases h : ex2Schema.entityType? T with
+    | none => rfl
+    | some et =>
+      have hm := entityType?_mem' h
+      simp only [ex2Schema, List.mem_cons, Prod.mk.injEq, List.not_mem_nil, or_false] at hm
+      rcases hm with ⟨rfl, _⟩ | ⟨rfl, _⟩ <;> exact absurd hT (by decide)
+  ets_map := by
+    intro p hp
+    simp only [ex2Schema, List.mem_cons, List.not_mem_nil, or_false] at hp
+    rcases hp with rfl | rfl <;> rfl
+  act_type := by
+    intro u a h
+    have hm := action?_mem h
+    simp only [ex2Schema, List.mem_cons, Prod.mk.injEq, List.not_mem_nil, or_false] at hm
+    rcases hm with ⟨rfl, _⟩ | ⟨rfl, _⟩ <;> decide
+  act_anc_desc := by
+    intro u a h p hp
+    have hm := action?_mem h
+    simp only [ex2Schema, List.mem_cons, Prod.mk.injEq, List.not_mem_nil, or_false] at hm
+    rcases hm with ⟨rfl, rfl⟩ | ⟨rfl, rfl⟩
+    · simp [ex2Read] at hp
+    · simp only [ex2View, List.mem_cons, List.not_mem_nil, or_false] at hp
+      subst hp
+      exact ⟨ex2Read, rfl, by simp [ex2Read]⟩
+  act_desc_anc := by
+    intro u a h d hd
+    have hm := action?_mem h
+    simp only [ex2Schema, List.mem_cons, Prod.mk.injEq, List.not_mem_nil, or_false] at hm
+    rcases hm with ⟨rfl, rfl⟩ | ⟨rfl, rfl⟩
+    · simp only [ex2Read, List.mem_cons, List.not_mem_nil, or_false] at hd
+      subst hd
+      exact ⟨ex2View, rfl, by simp [ex2View]⟩
+    · simp [ex2View] at hd
+
+theorem ex2_envMatches : EnvMatches ex2Schema ex2Env ex2World.q := ⟨rfl, rfl, rfl, ex2View, rfl, rfl⟩
+
+theorem ex2_request : ConformsRequest ex2Schema ex2World.q :=
+  (Cedar.C11.checkRequest_iff _ _).mp ((ok_iff_isOkB _).mpr (by decide +kernel))
+
+theorem ex2_store : StoreConforms ex2Schema ex2World.es := by
+  intro uid d h
+  have hm := entities_find?_mem h
+  simp only [ex2World, List.mem_cons, Prod.mk.injEq, List.not_mem_nil, or_false] at hm
+  rcases hm with ⟨rfl, rfl⟩ | ⟨rfl, rfl⟩ | ⟨rfl, rfl⟩ | ⟨rfl, rfl⟩ <;>
+    exact (Cedar.C11.checkEntity_iff ex2Schema (by decide +kernel) _ _).mp ((ok_iff_isOkB _).mpr (by decide +kernel))
+
+theorem ex2_actions : ActionsPresent ex2Schema ex2World.es := by
+  intro u a h
+  have hm := action?_mem h
+  simp only [ex2Schema, List.mem_cons, Prod.mk.injEq, List.not_mem_nil, or_false] at hm
+  rcases hm with ⟨rfl, _⟩ | ⟨rfl, _⟩ <;> exact ⟨_, rfl⟩
+
+theorem ex2_slots : SlotsMatch ex2Env ex2World.sl :=
+  ⟨fun t ht => ⟨⟨"User", "alice"⟩, rfl, by cases ht; rfl⟩, fun t ht => by cases ht⟩
+
+example : InFragment2 ex2Env ex2Cond = true := by decide +kernel
+example : checkEnv .strict ex2Schema ex2Env ex2Cond = some .bool := by decide +kernel
+/-- `e` evaluates to `true` (as a `Bool`: `Value` has no decidable equality) -/
+def evalsToTrue (w : World) (e : Expr) : Bool :=
+  match w.eval e with
+  | .ok (.prim (.bool true)) => true
+  | _ => false
+/-- the condition is satisfied by the request … -/
+example : evalsToTrue ex2World ex2Cond = true := by decide +kernel
+/-- … and every premise of the soundness theorem (schema well-formedness, environment, conformance of request and store,
+action entities, slots, capabilities) holds for it -/
+example : (∃ b, ex2World.eval ex2Cond = .ok (.prim (.bool b))) ∨ (∃ err, ex2World.eval ex2Cond = .error err ∧ Permitted err) :=
+  accepted_boolean_or_permitted_error2 ex2Schema ex2Env ex2World ex2_schemaWF ex2_envMatches ex2_request ex2_store
+    ex2_actions ex2_slots ex2Cond (by decide +kernel) .bool (by decide +kernel) (by decide)
+/-- the policy-level theorem on a slot-free condition: `checkPolicy` lists the single environment of the schema -/
+def ex2Static : Expr :=
+  .and (.binaryApp .mem principal (.var .resource))
+  (.and (.binaryApp .hasTag principal ex2Team) (.like (.binaryApp .getTag principal ex2Team) [.char 'b', .star]))
+example : (∃ b, ex2World.eval ex2Static = .ok (.prim (.bool b))) ∨ (∃ err, ex2World.eval ex2Static = .error err ∧ Permitted err) :=
+  strict_validation_sound_static ex2Schema ex2Static
+    [(⟨"User", ⟨"Action", "view"⟩, "Group", ex2View.context, none, none⟩, .bool)] ex2World ex2_schemaWF ex2_request ex2_store ex2_actions
+    (fun _ => rfl) rfl rfl
+/-- strict ⇒ permissive on a condition with an `if` (flat else-branch) and a set literal of flat elements -/
+def ex2Sip : Expr :=
+  .and ex2Static
+  (.and (.binaryApp .contains (.set [.lit (.int 1), .lit (.int 2)]) (.getAttr context "level"))
+        (.binaryApp .lessEq (.ite (.hasAttr principal "age") (.getAttr principal "age") (.lit (.int 0))) (.lit (.int 3))))
+example : SIPFragment ex2Sip = true := by decide +kernel
+example : checkEnv .permissive ex2Schema ex2Env ex2Sip = some .bool :=
+  strict_accepted_implies_permissive_accepted ex2Schema ex2Env ex2World.q ex2_schemaWF ex2_envMatches ex2Sip (by decide +kernel)
+    (by decide +kernel) .bool (by decide +kernel) (by decide)
+/-- the both-modes theorem instantiated in permissive mode -/
+example : (∃ b, ex2World.eval ex2Sip = .ok (.prim (.bool b))) ∨ (∃ err, ex2World.eval ex2Sip = .error err ∧ Permitted err) :=
+  accepted_boolean_or_permitted_errorM .permissive ex2Schema ex2Env ex2World ex2_schemaWF ex2_envMatches ex2_request ex2_store
+    ex2_actions ex2_slots ex2Sip (by decide +kernel) .bool (by decide +kernel) (by decide)
+theorem ex2_schemaWF3 : SchemaWF3 ex2Schema where
+  toSchemaWF2 := ex2_schemaWF
+  et_cn := by
+    intro T et h
+    have hm := entityType?_mem' h
+    simp only [ex2Schema, List.mem_cons, Prod.mk.injEq, List.not_mem_nil, or_false] at hm
+    rcases hm with ⟨rfl, rfl⟩ | ⟨rfl, rfl⟩
+    · exact ⟨rfl, fun t ht => by simp [ex2Group] at ht⟩
+    · exact ⟨rfl, fun t ht => by simp [ex2User] at ht; subst ht; rfl⟩
+  act_cn := by
+    intro u a h
+    have hm := action?_mem h
+    simp only [ex2Schema, List.mem_cons, Prod.mk.injEq, List.not_mem_nil, or_false] at hm
+    rcases hm with ⟨rfl, rfl⟩ | ⟨rfl, rfl⟩ <;> decide
+  acts_map := by
+    intro p hp
+    simp only [ex2Schema, List.mem_cons, List.not_mem_nil, or_false] at hp
+    rcases hp with rfl | rfl <;> rfl
+
+/-- strict ⇒ permissive at policy level on a condition whose `if`s join record types (`{x: True}` with `{x: False}`) and
+set types — outside `SIPFragment`, inside the strict fragment -/
+def ex2NonFlat : Expr :=
+  .and (.getAttr (.ite (.binaryApp .less (.getAttr context "level") (.lit (.int 5)))
+                       (.record [("x", .lit (.bool true))]) (.record [("x", .lit (.bool false))])) "x")
+       (.binaryApp .contains (.ite (.binaryApp .less (.getAttr context "level") (.lit (.int 5)))
+                                   (.set [principal]) (.set [principal, principal])) principal)
+example : SIPFragment ex2NonFlat = false := by decide +kernel
+example : checkPolicy .permissive ex2Schema .absent .absent ex2NonFlat =
+    some [(⟨"User", ⟨"Action", "view"⟩, "Group", ex2View.context, none, none⟩, .bool)] :=
+  strict_accepted_policy_permissive_accepted ex2Schema .absent .absent ex2NonFlat _ ex2_schemaWF3 (fun _ _ => rfl) rfl rfl
+
+/-- `False` from the hierarchy: a `Group` is never in a `User`; `True` from the action hierarchy: `view` is in `read` -/
+example : checkEnv .strict ex2Schema ex2Env (.binaryApp .mem (.var .resource) principal) = some .ff := by decide +kernel
+example : checkEnv .strict ex2Schema ex2Env (.binaryApp .mem (.var .action) (.lit (.entityUID ⟨"Action", "read"⟩))) = some .tt := by
+  decide +kernel
+/-- an unguarded `getTag` and a set literal of mixed types are rejected in strict mode -/
+example : checkEnv .strict ex2Schema ex2Env (.like (.binaryApp .getTag principal ex2Team) [.star]) = some .fail := by decide +kernel
+example : checkEnv .strict ex2Schema ex2Env (.unaryApp .isEmpty (.set [.lit (.int 1), .lit (.string "x")])) = some .fail := by
+  decide +kernel
 
 end Cedar.C03
